@@ -365,6 +365,14 @@ let cmd_invalidate t =
   let g' = invalidate inf u g in
   out_mat (List.map (List.map fst) g'); out_sep (); out_mat (List.map (List.map snd) g')
 
+(* binding sparse named fast snamed sfast callable -> init-binding load-binding (0 dense-named 1 dense-fast 2 sparse-named 3 sparse-fast 4 callable 5 error) *)
+let cmd_binding t =
+  let sp = next_bool t in
+  let a = next_bool t in let b = next_bool t in let c = next_bool t in let d = next_bool t in let e = next_bool t in
+  let m = { in_named = a; in_fast = b; in_sparse_named = c; in_sparse_fast = d; is_callable = e } in
+  let code = function BDenseNamed -> 0 | BDenseFast -> 1 | BSparseNamed -> 2 | BSparseFast -> 3 | BCallable -> 4 | BError -> 5 in
+  out_int (code (init_binding sp m)); out_int (code (load_binding false sp m))
+
 (*DISPATCH-BEGIN*)
 let dispatch : (string * (toks -> unit)) list = [
   ("heapseq", cmd_heapseq);
@@ -392,6 +400,7 @@ let dispatch : (string * (toks -> unit)) list = [
   ("rejsample", cmd_rejsample);
   ("aliasrun", cmd_aliasrun);
   ("lifecycle", cmd_lifecycle);
+  ("binding", cmd_binding);
   ("invalidate", cmd_invalidate);
   ("conncert", cmd_conncert);
 ]
